@@ -729,8 +729,22 @@ spf_makro(const char *token, const char *domain, int ex, char **result)
 	if (ex == 1) {
 		toklen = strlen(token);
 	} else {
+		int inmakro = 0;
+
 		p = token;
-		while ((*p != '\0') && !WSPACE(*p) && (*p != '/')) {
+		while ((*p != '\0') && !WSPACE(*p) && (inmakro || (*p != '/'))) {
+			/* a '/' inside of %{...} is a delimiter and does not start the CIDR length */
+			if (inmakro) {
+				if (*p == '}')
+					inmakro = 0;
+			} else if (*p == '%') {
+				if (*(p + 1) == '{') {
+					inmakro = 1;
+				} else if ((*(p + 1) != '\0') && !WSPACE(*(p + 1))) {
+					p++;
+					toklen++;
+				}
+			}
 			p++;
 			toklen++;
 		}
